@@ -269,9 +269,49 @@ fn tree_mirror_shape(lit_n: usize, dist_n: usize, tc_n: usize, hlit: usize, hdis
     kani::cover!(hclen == 4, "minimal HCLEN");
     core::mem::forget(back); core::mem::forget(enc);
 }
+/// CONTRACT of the run-length mirror (discharged by k02b_ld_mirror_*: reconstruct_ld_trees(predict_ld_trees(p, t)) == t
+/// whenever both sides are given the same predicted vector p and t covers p exactly): the items travel through the
+/// codec verbatim, together with the length and a digest of the predicted vector, which the other side must reproduce
+fn ld_digest(v: &[u8]) -> u16 {
+    let n = v.len();
+    let mut d: u16 = n as u16;
+    if n >= 1 { d = d.wrapping_mul(31).wrapping_add(v[n - 1] as u16); }
+    if n >= 2 { d = d.wrapping_mul(31).wrapping_add(v[n - 2] as u16); }
+    if n >= 4 { d = d.wrapping_mul(31).wrapping_add(v[n - 4] as u16); }
+    d
+}
+pub fn contract_predict_ld<D: PredictionEncoder>(encoder: &mut D, predicted_bit_len: &[u8], actual_target_codes: &[(TreeCodeType, u8)]) -> Result<()> {
+    let mut total = 0usize;
+    let mut i = 0;
+    while i < actual_target_codes.len() { total += item_span(&actual_target_codes[i]); i += 1; }
+    assert!(total == predicted_bit_len.len(), "predict_ld_trees precondition: the items do not cover the predicted vector exactly (its assert_eq! would panic)");
+    encoder.encode_value(ld_digest(predicted_bit_len), 16);
+    encoder.encode_value(actual_target_codes.len() as u16, 8);
+    let mut i = 0;
+    while i < actual_target_codes.len() { encoder.encode_value(match actual_target_codes[i].0 { TreeCodeType::Code => 0, TreeCodeType::Repeat => 1, TreeCodeType::ZeroShort => 2, TreeCodeType::ZeroLong => 3 }, 2); encoder.encode_value(actual_target_codes[i].1 as u16, 8); i += 1; }
+    Ok(())
+}
+pub fn contract_reconstruct_ld<D: PredictionDecoder>(decoder: &mut D, sym_bit_len: &[u8]) -> Result<Vec<(TreeCodeType, u8)>> {
+    let dg = decoder.decode_value(16);
+    assert!(dg == ld_digest(sym_bit_len), "the reconstruction side predicts different code lengths (or a different number of them) than the analysis side");
+    let n = decoder.decode_value(8) as usize;
+    let mut v: Vec<(TreeCodeType, u8)> = Vec::with_capacity(8);
+    let mut i = 0;
+    while i < 8 {
+        if i < n {
+            let t = match decoder.decode_value(2) { 0 => TreeCodeType::Code, 1 => TreeCodeType::Repeat, 2 => TreeCodeType::ZeroShort, _ => TreeCodeType::ZeroLong };
+            let d = decoder.decode_value(8) as u8;
+            v.push((t, d));
+        }
+        i += 1;
+    }
+    Ok(v)
+}
 macro_rules! k02c { ($name:ident, $ln:expr, $dn:expr, $tn:expr, $hl:expr, $hd:expr, $runs:expr) => {
     kproof! {
         #[kani::stub(crate::huffman_calc::calc_bit_lengths, stub_calc_bit_lengths_shape)]
+        #[kani::stub(crate::tree_predictor::predict_ld_trees, contract_predict_ld)]
+        #[kani::stub(crate::tree_predictor::reconstruct_ld_trees, contract_reconstruct_ld)]
         fn $name() { tree_mirror_shape($ln, $dn, $tn, $hl, $hd, $runs); }
     }
 } }
